@@ -276,9 +276,18 @@ func ruleR04_6(w *World, r *Report) {
 				return
 			}
 			n++
-			o := origins(mu.Key)
-			good := (o["invoke:hash"] || o["call:orderedNode.hash"] || o["invoke:getOrderTime"] || o["call:orderedNode.getOrderTime"]) &&
-				!o["invoke:getTime"] && !o["call:timedNode.getTime"] && !o["invoke:getCreateTime"]
+			good := false
+			if c, ok := mu.Key.(*ssa.Call); ok {
+				switch calleeName(c) {
+				case "hash": // orderedNode.hash() is O.Hash()
+					good = true
+				case "Hash":
+					recv, _ := recvAndArgs(c)
+					if rc, ok := recv.(*ssa.Call); ok && calleeName(rc) == "getOrderTime" {
+						good = true
+					}
+				}
+			}
 			r.Check(good, fnName(fn)+"/store listSnapshot.Map[key]", u.Pos(mu.Pos()), "keyed by order time: "+exprName(mu.Key),
 				"the identity map is keyed by "+exprName(mu.Key)+", not by the node's order time: operations addressed to an updated or deleted element miss it")
 		})
